@@ -189,6 +189,7 @@ func init() {
 		Prop{
 			ID: "C14",
 			Runs: []Run{
+				{Harness: "config.ZZC14Skip", Desc: "file filter kernel for ARBITRARY strings: file name (<= 14 bytes), 0..2 exclude-path entries (1..4 bytes each), scan-tests: skipped iff the name contains an entry or (scan-tests off and the name ends in _test.go)", Bounds: map[string]interface{}{"name_bytes": 14, "entries": "0..2 x 1..4 bytes"}},
 				{Harness: "zzverif/zzh.ZZC14Files", Desc: "package of two files; the second file's name (regular, _test.go, testdata/, gen/, look-alikes), scan-tests, exclude-paths (4 settings) and a file-level @ignore inside it are symbolic; it declares an @immutable type and a @testonly function used by the first file and contains violations itself", Bounds: map[string]interface{}{"file_names": 6, "exclude_paths": 4, "scan_tests": "symbolic"}},
 			},
 			Outside:     []string{"external test packages (package d_test) as separate passes", "arbitrary exclude-path strings (4 fixed settings incl. empty list and a prefix look-alike)"},
